@@ -421,6 +421,17 @@ impl<'a> G<'a> {
             } else if kind == 3 && self.o.data {
                 let l = if self.rng.coin() { None } else { Some(usize::MAX) };
                 out.push(Line { label: labels[i], sts: vec![St::Restore(l), self.simple()] });
+            } else if kind == 5 && self.o.func && self.nfn > 0 && self.rng.chance(1, 2) {
+                // a function defined again: calls made after this line executes use the new body
+                let k = self.rng.usize(self.nfn);
+                let ar = if self.rng.chance(1, 4) { self.rng.range(1, 3) as usize } else { self.fn_arity[k] };
+                let ps: Vec<String> = PARAMS[..ar].iter().map(|s| s.to_string()).collect();
+                let saved = self.nfn;
+                self.nfn = k; // the new body may call the functions defined before this one
+                let body = self.expr(2, &ps);
+                self.nfn = saved;
+                self.fn_arity[k] = ar;
+                out.push(Line { label: labels[i], sts: vec![St::Def(k, ps, body)] });
             } else if kind == 4 && self.rng.chance(1, 3) {
                 out.push(Line { label: labels[i], sts: vec![St::Rem("note: GOTO 10".into(), self.rng.coin())] });
             } else {
@@ -1213,7 +1224,11 @@ impl<'a> M<'a> {
                 for (p, v) in ps.iter().zip(vals) {
                     inner.insert(p.clone(), v);
                 }
-                self.eval(&body, &inner, depth + 1, ln)?
+                match self.eval(&body, &inner, depth + 1, ln) {
+                    // which line an error raised inside a function body belongs to is not documented
+                    Err(End::Error(..)) => return Err(End::Unspec("error inside FN body")),
+                    other => other?,
+                }
             }
             E::Bin(l, op, r) => {
                 let a = self.eval(l, env, depth, ln)?;
